@@ -1263,11 +1263,17 @@ impl CodegenContext {
         f: F,
     ) -> CoreResult<()> {
         let prev_segment = self.current_segment.clone();
-        self.segments
-            .insert("$dummy".into(), Segment::new(SegmentOptions::default()));
+        // May be nested (e.g. an untaken '.if' inside an untaken '.if'): only the outermost use owns the segment
+        let is_outermost = !self.segments.contains_key(&Identifier::new("$dummy"));
+        if is_outermost {
+            self.segments
+                .insert("$dummy".into(), Segment::new(SegmentOptions::default()));
+        }
         self.current_segment = Some(Identifier::new("$dummy"));
         let result = f(self);
-        self.segments.remove(&Identifier::new("$dummy"));
+        if is_outermost {
+            self.segments.remove(&Identifier::new("$dummy"));
+        }
         self.current_segment = prev_segment;
         result
     }
